@@ -54,7 +54,9 @@ BY_REF = {(u["fam"], u["idx"]): u for u in UNITS.values()}
 KINDS = {k: [u for u in UNITS.values() if u["kind"] == k] for k in ("length", "weight", "memory")}
 
 WORDS = ["to", "as", "in", "into"]
-AMOUNTS = [1, 2, 2.5, -3, 0.125, 1000, 1234.5, 7, 0.1, 36, -0.75, 1024, 250000]
+AMOUNTS = [1, 2, 2.5, -3, 0.125, 1000, 1234.5, 7, 0.1, 36, -0.75, 1024, 250000,
+           # conversion is linear in the amount at every magnitude: amounts below f64::EPSILON are not zero
+           1e-16, 2e-16, -5e-17, 3e-12]
 SEPS = [(",", "."), (".", ",")]           # (decimal, thousands): the default and the English habit
 TOL = F(1, 2 ** 40)
 
